@@ -130,7 +130,7 @@ def _strip(s):
 
 D_ITEMS = [  # (source text, model item)
     ('derive(Hash)', ('der', ['Hash'])), ('derive(PartialOrd, Ord)', ('der', ['PartialOrd', 'Ord'])), ('derive(strum::EnumIter,)', ('der', ['strum::EnumIter'])),
-    ('derive()', ('der', [])), ('derive(Display, EnumIter)', ('der', ['Display', 'EnumIter'])), ('derive(EnumString)', ('der', ['EnumString'])), ('derive(::core::hash::Hash, Default)', ('der', ['::core::hash::Hash', 'Default'])),
+    ('derive()', ('der', [])), ('derive(Default)', ('der', ['Default'])), ('derive(Display, EnumIter)', ('der', ['Display', 'EnumIter'])), ('derive(EnumString)', ('der', ['EnumString'])), ('derive(::core::hash::Hash, Default)', ('der', ['::core::hash::Hash', 'Default'])),
     ('name(Kind)', ('nam', 'Kind')), ('name(r#type)', ('nam', 'r#type')), ('name(Other)', ('nam', 'Other')),
     ('vis(pub)', ('vis', 'pub')), ('vis(pub(crate))', ('vis', 'pub(crate)')), ('vis()', ('vis', '')), ('vis(pub(super))', ('vis', 'pub(super)')),
     ('vis(pub(in crate::a))', ('vis', 'pub(incrate::a)')),
@@ -147,7 +147,7 @@ V_ATTRS = [  # (source attribute, (path, text, inner or None))
     ('#[strum_discriminants(doc = "x")]', ('strum_discriminants', 'strum_discriminants(doc="x")', 'doc="x"')),
     ('#[strum_discriminants(cfg_attr(test, allow(unused), deny(warnings)))]', ('strum_discriminants', 'strum_discriminants(cfg_attr(test,allow(unused),deny(warnings)))', 'cfg_attr(test,allow(unused),deny(warnings))')),
     ('#[serde(rename = "x")]', ('serde', 'serde(rename="x")', 'rename="x"')), ('#[warn(unused)]', ('warn', 'warn(unused)', 'unused')),
-    ('#[must_use]', ('must_use', 'must_use', None)), ('#[my::doc(x)]', ('', 'my::doc(x)', 'x')),
+    ('#[must_use]', ('must_use', 'must_use', None)), ('#[default]', ('default', 'default', None)), ('#[strum_discriminants(default)]', ('strum_discriminants', 'strum_discriminants(default)', 'default')), ('#[my::doc(x)]', ('', 'my::doc(x)', 'x')),
 ]
 V_BAD = [('#[strum_discriminants]', ('strum_discriminants', 'strum_discriminants', None)), ('#[strum_discriminants()]', ('strum_discriminants', 'strum_discriminants()', '')),
          ('#[strum_discriminants = "x"]', ('strum_discriminants', 'strum_discriminants="x"', None))]
